@@ -98,7 +98,7 @@ def model(kinds, t):
     return vals
 
 
-def gen_case(cid, kinds, repr_key, gen_key):
+def gen_case(cid, kinds, repr_key, gen_key, names=None):
     rattrs, t = REPRS[repr_key]
     decl, inst, fty, _ = GENERICS[gen_key]
     has_field = any(k[0] == "F" for k in kinds)
@@ -114,7 +114,7 @@ def gen_case(cid, kinds, repr_key, gen_key):
         return None
     variants, twin, arms, discs = [], [], [], []
     for i, k in enumerate(kinds):
-        name = "V%d" % i
+        name = names[i] if names else "V%d" % i
         d = ""
         if ":" in k:
             d = " = " + EXPRS[k.split(":")[1]][1](t)
@@ -149,8 +149,10 @@ def gen_case(cid, kinds, repr_key, gen_key):
 #[derive(derive_more::TryFrom)]
 #[try_from(repr)]
 {rattrs}
+#[allow(non_camel_case_types)]
 pub enum E{decl}{where} {{ {variants} }}
 {twattrs}
+#[allow(non_camel_case_types)]
 pub enum Tw {{ {twin} }}
 type EE = E{inst};
 fn idx(e: &EE) -> usize {{ match e {{ {arms} }} }}
@@ -161,8 +163,9 @@ pub fn run(r: &mut R) {{
 }}""".format(t=t, twattrs="" if repr_key == "none" else "#[repr(%s)]" % t, rattrs="\n".join(rattrs), decl=decl, where=where, variants=", ".join(variants),
              twin=", ".join(twin), inst=inst, arms=", ".join(arms), n=len(kinds), discs=", ".join(discs),
              vals=", ".join("%di128" % v for v in vals), dom=dom)
-    src = "%s #[try_from(repr)] enum E%s%s { %s }" % (" ".join(rattrs), decl, where, ", ".join(variants))
-    return Case(cid, mod, meta={"kinds": kinds, "repr": repr_key, "generics": gen_key, "src": src})
+    shown = variants if len(variants) <= 12 else variants[:6] + ["... (%d variants) ..." % len(variants)] + variants[-3:]
+    src = "%s #[try_from(repr)] enum E%s%s { %s }" % (" ".join(rattrs), decl, where, ", ".join(shown))
+    return Case(cid, mod, meta={"kinds": kinds if len(kinds) <= 12 else kinds[:4] + ["x%d" % len(kinds)], "repr": repr_key, "generics": gen_key, "src": src})
 
 
 def seqs(alphabet, maxlen):
@@ -208,6 +211,27 @@ def run(chk, tier):
         for r in REPRS:
             add(s, r, "none")
     chk.part("B_reprs", alphabet=alphaB, max_len=3 if thorough else 2, reprs=list(REPRS), programs=len(cases) - b0)
+    # Part D: long runs of implicit discriminants (the offset from the last explicit one grows past every small integer width)
+    d0 = len(cases)
+    for r in ("u16", "i16", "none") + (("u32", "i64", "u128") if thorough else ()):
+        nn = len(cases)
+        cases.append(gen_case("c%d" % n, ["U"] * 300, r, "none")); n += 1
+        cases.append(gen_case("c%d" % n, ["U:5"] + ["U"] * 300, r, "none")); n += 1
+        cases.append(gen_case("c%d" % n, ["U"] * 130 + ["F"] + ["U"] * 140 + ["P", "B"], r if r != "none" else "u16", "none")); n += 1
+        if r[0] == "i":
+            cases.append(gen_case("c%d" % n, ["U:neg3"] + ["U"] * 270, r, "none")); n += 1
+    chk.part("D_long_runs", run_lengths=[270, 300], reprs=["u16", "i16", "isize"] + (["u32", "i64", "u128"] if thorough else []), programs=len(cases) - d0)
+    # Part E: variant names that differ only in letter case / raw prefix (helper items derived from the names must stay distinct)
+    e0 = len(cases)
+    for names, kinds in ((["Kb", "KB", "Mb", "MB"], ["U:1", "U", "U:5", "U"]), (["a", "A"], ["U", "U"]), (["r#fn", "Fn", "FN", "r#Self_"], ["U:5", "U", "U", "U"]),
+                         (["Ab", "AB", "aB"], ["U", "F", "U"]), (["Ärger", "ÄRGER"], ["U", "U:5"])):
+        for r in ("u8", "none"):
+            if r == "none" and "F" in kinds:
+                continue
+            c = gen_case("c%d" % n, kinds, r, "none", names=names)
+            if c is not None:
+                cases.append(c); n += 1
+    chk.part("E_names", programs=len(cases) - e0, names="pairs and triples equal up to letter case, raw identifiers, non-ASCII")
     # Part C: generics
     alphaC = ["U", "U:5", "U:shl", "F", "P"]
     c0 = len(cases)
